@@ -146,7 +146,9 @@ class ZoomingOracle(Oracle):
 
         mine, sc = index(arm)
         best = max(index(a)[0] for a in act)
-        if not (mine == best or close(mine, best, 1e-9, sc)):
+        # rounding of a running mean over t rounds, relative to the largest reward involved - not a fixed 1e-9, which
+        # would call indices 1e-4 apart "tied" once rewards are of order 1e5
+        if not (mine == best or close(mine, best, 32 * (t + 8) * 2.3e-16, sc)):
             raise Violation("C11.index", "pulled arm at %r has index %r, another active arm has %r (phase %d, round %d)"
                             % (arm.get_point(), mine, best, ph, t), round=t)
         ctx.extra["stats"].bump("pulls_judged")
